@@ -118,7 +118,7 @@ Fixpoint gg_lr_loop (us : list Z) (r d : Z) (G : iograph) (s : gg_stream) : gg_r
   end.
 Definition gg_left_regular (l r d : Z) (s : gg_stream) : gg_res (iograph * gg_stream) :=
   if (l <? 0) || (r <? 0) || (d <? 0) then GGRaise EValueError
-  else gg_bind (gg_lift (gio_new KBipartite [] l r)) (fun G => gg_lr_loop (gt_range1 l) r (Z.min r d) G s).
+  else gg_bind (gg_lift (gio_new GioBipartite [] l r)) (fun G => gg_lr_loop (gt_range1 l) r (Z.min r d) G s).
 
 (* ---------- bipartite_random_m_edges ---------- *)
 (* while count < m: u = randint(1,L); v = randint(1,R); add when absent *)
@@ -134,7 +134,7 @@ Fixpoint gg_me_sparse (L R remaining : Z) (G : iograph) (s : gg_stream) {struct 
        end.
 Definition gg_m_edges (spec : bool) (L R m : Z) (s : gg_stream) : gg_res (iograph * gg_stream) :=
   if (L <? 1) || (R <? 1) || (m <? 0) || (L * R <? m) then GGRaise EValueError
-  else gg_bind (gg_lift (gio_new KBipartite [] L R)) (fun G =>
+  else gg_bind (gg_lift (gio_new GioBipartite [] L R)) (fun G =>
        if L * R / 3 <? m then
          (* dense: random.sample(E, m) where E is a generator *)
          if spec then gg_bind (gg_sample_list (0, 0) (gg_all_pairs L R) m s) (fun es => gg_add_edges G (fst es) (snd es))
@@ -159,7 +159,7 @@ Fixpoint gg_bernoulli (cells : list (Z * Z)) (G : iograph) (s : gg_stream) : gg_
 (* p_ok: 0 <= p <= 1 *)
 Definition gg_bip_random (L R : Z) (p_ok : bool) (s : gg_stream) : gg_res (iograph * gg_stream) :=
   if (L <? 1) || (R <? 1) || negb p_ok then GGRaise EValueError
-  else gg_bind (gg_lift (gio_new KBipartite [] L R)) (fun G => gg_bernoulli (gg_all_pairs L R) G s).
+  else gg_bind (gg_lift (gio_new GioBipartite [] L R)) (fun G => gg_bernoulli (gg_all_pairs L R) G s).
 
 (* multipartite_tnp(t, n, p): blocks i < j, a in block i, b in block j (0-based a, b; vertex = index + 1) *)
 Definition gg_tnp_cells (t n : Z) : list (Z * Z) :=
@@ -168,7 +168,7 @@ Definition gg_tnp_cells (t n : Z) : list (Z * Z) :=
                                (map (fun x => n * (fst ij - 1) + x) (gt_range1 n)))
            (pairs (gt_range1 t)).
 Definition gg_tnp (t n : Z) (s : gg_stream) : gg_res (iograph * gg_stream) :=
-  gg_bind (gg_lift (gio_new KSimple [] (t * n) 0)) (fun G => gg_bernoulli (gg_tnp_cells t n) G s).
+  gg_bind (gg_lift (gio_new GioSimple [] (t * n) 0)) (fun G => gg_bernoulli (gg_tnp_cells t n) G s).
 
 (* ---------- bipartite_shift ---------- *)
 Definition gg_shift_edges (N M : Z) (pat : list Z) : list (Z * Z) :=
@@ -177,7 +177,7 @@ Definition gg_shift_edges (N M : Z) (pat : list Z) : list (Z * Z) :=
 Definition gg_shift (sort_in_place : bool) (N M : Z) (pat : list Z) : gg_res (iograph * list Z) :=
   if (N <? 1) || (M <? 1) then GGRaise EValueError
   else let sp := gio_sort Z.ltb pat in
-       gg_bind (gg_lift (gio_new KBipartite [] N M)) (fun G =>
+       gg_bind (gg_lift (gio_new GioBipartite [] N M)) (fun G =>
        gg_bind (gg_lift (gio_add_edges G (gg_shift_edges N M sp))) (fun G' =>
        GGOk (G', if sort_in_place then sp else pat))).
 Definition gg_shift_as_is := gg_shift true.
@@ -256,7 +256,7 @@ Fixpoint gg_rr_restarts (repair : bool) (restarts : nat) (l r d : Z) (s : gg_str
   match restarts with
   | O => GGNoFuel
   | S k =>
-    gg_bind (gg_lift (gio_new KBipartite [] l r)) (fun G =>
+    gg_bind (gg_lift (gio_new GioBipartite [] l r)) (fun G =>
     gg_bind (gg_rr_loop repair (Z.to_nat (l * d)) 0 (l * d) d G (gg_rr_A l d) (gg_rr_B l r d) s) (fun res =>
     match fst res with
     | Some G' => GGOk (G', snd res)
@@ -273,11 +273,11 @@ Definition gg_random_regular_spec := gg_random_regular true.
 
 (* ---------- fixed graphs ---------- *)
 Definition gg_complete_bipartite (L R : Z) : gg_res iograph :=
-  gg_bind (gg_lift (gio_new KBipartite [] L R)) (fun G => gg_lift (gio_add_edges G (gg_all_pairs L R))).
-Definition gg_empty_bipartite (L R : Z) : gg_res iograph := gg_lift (gio_new KBipartite [] L R).
+  gg_bind (gg_lift (gio_new GioBipartite [] L R)) (fun G => gg_lift (gio_add_edges G (gg_all_pairs L R))).
+Definition gg_empty_bipartite (L R : Z) : gg_res iograph := gg_lift (gio_new GioBipartite [] L R).
 Definition gg_complete_simple (n : Z) : gg_res iograph :=
-  gg_bind (gg_lift (gio_new KSimple [] n 0)) (fun G => gg_lift (gio_add_edges G (pairs (gt_range1 n)))).
-Definition gg_empty_simple (n : Z) : gg_res iograph := gg_lift (gio_new KSimple [] n 0).
+  gg_bind (gg_lift (gio_new GioSimple [] n 0)) (fun G => gg_lift (gio_add_edges G (pairs (gt_range1 n)))).
+Definition gg_empty_simple (n : Z) : gg_res iograph := gg_lift (gio_new GioSimple [] n 0).
 
 (* one layer of the pyramid: w destinations *)
 Fixpoint gg_pyr_row (w : nat) (src dest : Z) : list (Z * Z) :=
@@ -293,7 +293,7 @@ Fixpoint gg_pyr_rows (w : nat) (src dest : Z) : list (Z * Z) :=
   end.
 Definition gg_dag_pyramid (h : Z) : gg_res iograph :=
   if h <? 0 then GGRaise EValueError
-  else gg_bind (gg_lift (gio_new KDirected [] ((h + 1) * (h + 2) / 2) 0)) (fun G =>
+  else gg_bind (gg_lift (gio_new GioDirected [] ((h + 1) * (h + 2) / 2) 0)) (fun G =>
        gg_lift (gio_add_edges G (gg_pyr_rows (Z.to_nat h) 1 (h + 2)))).
 
 Fixpoint gg_tree_edges (cnt : nat) (src dest : Z) : list (Z * Z) :=
@@ -304,12 +304,12 @@ Fixpoint gg_tree_edges (cnt : nat) (src dest : Z) : list (Z * Z) :=
 Definition gg_dag_tree (h : Z) : gg_res iograph :=
   if h <? 0 then GGRaise EValueError
   else let N := 2 * 2 ^ h in
-       gg_bind (gg_lift (gio_new KDirected [] (N - 1) 0)) (fun G =>
+       gg_bind (gg_lift (gio_new GioDirected [] (N - 1) 0)) (fun G =>
        gg_lift (gio_add_edges G (gg_tree_edges (Z.to_nat (N / 2 - 1)) 1 (N / 2 + 1)))).
 
 Definition gg_dag_path (len : Z) : gg_res iograph :=
   if len <? 0 then GGRaise EValueError
-  else gg_bind (gg_lift (gio_new KDirected [] (len + 1) 0)) (fun G =>
+  else gg_bind (gg_lift (gio_new GioDirected [] (len + 1) 0)) (fun G =>
        gg_lift (gio_add_edges G (map (fun i => (i, i + 1)) (gt_range1 len)))).
 
 (* ---------- plantclique / plantbiclique (after the argument guard) ---------- *)
@@ -326,19 +326,19 @@ Definition gg_plantbiclique (G : iograph) (a b : Z) (s : gg_stream) : gg_res (io
 (* twice total_number_of_edges *)
 Definition gg_total2 (G : iograph) : Z :=
   match io_kind G with
-  | KBipartite => 2 * (io_n G * io_r G)
+  | GioBipartite => 2 * (io_n G * io_r G)
   | _ => io_n G * (io_n G - 1)
   end.
 (* edge_sampler() cannot even start: random.sample raises ValueError, sample larger than population *)
 Definition gg_ae_pop_small (G : iograph) : bool :=
   match io_kind G with
-  | KBipartite => (io_n G <? 1) || (io_r G <? 1)
+  | GioBipartite => (io_n G <? 1) || (io_r G <? 1)
   | _ => io_n G <? 2
   end.
 (* edge_sampler() from two recorded positions *)
 Definition gg_ae_pick (G : iograph) (a b : Z) : option (Z * Z) :=
   match io_kind G with
-  | KBipartite =>
+  | GioBipartite =>
     if (0 <=? a) && (a <? io_n G) && (0 <=? b) && (b <? io_r G) then Some (a + 1, b + 1) else None
   | _ =>
     if (0 <=? a) && (a <? io_n G) && (0 <=? b) && (b <? io_n G) && negb (a =? b) then Some (a + 1, b + 1) else None
@@ -360,7 +360,7 @@ Fixpoint gg_ae_loop (cnt goal : Z) (G : iograph) (s : gg_stream) {struct s} : gg
        end.
 Definition gg_candidates (G : iograph) : list (Z * Z) :=
   match io_kind G with
-  | KBipartite => gg_all_pairs (io_n G) (io_r G)
+  | GioBipartite => gg_all_pairs (io_n G) (io_r G)
   | _ => pairs (gt_range1 (io_n G))
   end.
 (* available_edges() *)
@@ -397,7 +397,7 @@ Fixpoint gg_split_loop (G : iograph) (x : Z) (es : list (Z * Z)) : gg_res iograp
   end.
 Definition gg_split_edges (G : iograph) (k : Z) (s : gg_stream) : gg_res (iograph * gg_stream) :=
   match io_kind G with
-  | KSimple =>
+  | GioSimple =>
     if k <? 0 then GGRaise EValueError
     else if gg_nedges G <? k then GGRaise EValueError
     else gg_bind (gg_sample_list (0, 0) (io_edges G) k s) (fun ts =>
@@ -562,9 +562,9 @@ Definition gg_opt_step (o : option (list Z)) (f : list Z -> iograph -> gg_stream
   end.
 Definition gg_modify (o : gg_opts) (G : iograph) (s : gg_stream) : gg_res (iograph * gg_stream) :=
   gg_bind (match io_kind G with
-           | KSimple => gg_opt_step (gg_o_plant o) gg_modify_plantclique (G, s)
-           | KBipartite => gg_opt_step (gg_o_plant o) gg_modify_plantbiclique (G, s)
-           | KDirected => GGOk (G, s)
+           | GioSimple => gg_opt_step (gg_o_plant o) gg_modify_plantclique (G, s)
+           | GioBipartite => gg_opt_step (gg_o_plant o) gg_modify_plantbiclique (G, s)
+           | GioDirected => GGOk (G, s)
            end) (fun x1 =>
   gg_bind (gg_opt_step (gg_o_add o) gg_modify_addedges x1) (fun x2 =>
   gg_opt_step (gg_o_split o) gg_modify_splitedges x2)).
